@@ -9,7 +9,9 @@ Rules (keys are rule:unit:function:construct):
   R07.6 operands that may be floating never go through the integer folder unguarded (eval2 and eval_double)
   R07.7 consumers: no narrow intermediate that is widened again; const_expr returns the value unchanged;
         shifts by bit_width/bit_offset are 64-bit (all units); case labels: see R03.2
-  R07.8 operator table of eval2 / eval_double, type dispatch between the two, eval_double's ND_CAST
+  R07.8 operator table of eval2 / eval_double, type dispatch between the two, eval_double's ND_CAST; a returning path that the
+        path condition pins to one operand value (`if (rhs == -1) return -lhs;`) is judged as a function of the free operand
+        against the operator on that value (modulo 2^64, in the signedness the path established); both operands still folded
   R07.9 operands that run-time evaluation does not evaluate (unselected arm of ?:, right operand of a decided && / ||)
         are not folded either (eval2, eval_double); is_const_expr folds an operand only after it was found constant
   R07.10 relocation out-parameter of eval2 / eval_rval: written at most once per evaluation, by the operand that
@@ -30,7 +32,7 @@ from ..build import AnalysisBroken
 from ..chibi import Catalogue
 from ..lib_c07_env import EntryFlow, table_model, reaching
 from ..lib_c07 import (SymExec, TypeFacts, Unsupported, pred_tables, show, tshow, strip_casts, strip_widening, walk,
-                       chain_signature, oracle_signature, ctype, WITNESS)
+                       chain_signature, oracle_signature, ctype, WITNESS, wrap, cdiv, I64)
 
 U = 'parse.c'
 NODE = ('sym', 'node')
@@ -441,9 +443,153 @@ def _operand_ok(v, want_child, floating):
     return None
 
 
+# ---- paths of an arm that are taken only for one value of an operand (`if (rhs == -1) return -lhs;`) ----
+def _operand_constants(p):
+    """{child: c} for the operands whose folded value the path condition pins to the constant c (guard `folder(child) == c` true)"""
+    out = {}
+    for a, t in p.guards:
+        if t and a[0] == 'bin' and a[1] == '==':
+            x, y = strip_widening(a[2]), strip_widening(a[3])
+            if x[0] == 'int' and y[0] != 'int':
+                x, y = y, x
+            r = as_rec(x) if x[0] == 'call' else None
+            if r and y[0] == 'int' and r[0] in INT_FOLD and r[1] in ('lhs', 'rhs'):
+                out[r[1]] = y[1]
+    return out
+
+
+class _NotConcrete(Exception):
+    pass
+
+
+def _host(op, x, y, T):
+    """C value of `x op y` carried out in the integer type T (operands already of that type), as a python int; None: undefined"""
+    x, y = wrap(x, T), wrap(y, T)
+    if op in ('/', '%'):
+        if y == 0:
+            return None
+        q = cdiv(x, y)
+        return wrap(q if op == '/' else x - q * y, T)
+    if op in ('<<', '>>'):
+        if not 0 <= y < T[1]:
+            return None
+        return wrap(x << y if op == '<<' else x >> y, T)
+    if op in ('==', '!=', '<', '<=', '>', '>='):
+        return int({'==': x == y, '!=': x != y, '<': x < y, '<=': x <= y, '>': x > y, '>=': x >= y}[op])
+    return wrap({'+': x + y, '-': x - y, '*': x * y, '&': x & y, '|': x | y, '^': x ^ y}[op], T)
+
+
+def _conc(v, bind):
+    """value of a summariser term when the folder calls on the children take the values of `bind` {child: int}"""
+    k = v[0]
+    if k == 'int':
+        return v[1]
+    if k == 'call':
+        r = as_rec(v)
+        if r and r[0] in INT_FOLD and r[1] in bind:
+            return bind[r[1]]
+        raise _NotConcrete(show(v))
+    if k == 'cast':
+        x = _conc(v[3], bind)
+        if v[1][0] not in ('i', 'b') or not isinstance(x, int):
+            raise _NotConcrete(show(v))
+        return wrap(x, v[1])
+    if k == 'un' and v[1] in ('-', '~') and v[3][0] == 'i':
+        x = wrap(_conc(v[2], bind), v[3])
+        return wrap(-x if v[1] == '-' else ~x, v[3])
+    if k == 'bin' and v[4][0] == 'i':
+        r = _host(v[1], _conc(v[2], bind), _conc(v[3], bind), v[4])
+        if r is None:
+            raise _NotConcrete('undefined ' + show(v))
+        return r
+    raise _NotConcrete(show(v))
+
+
+def _special_family(p, op, cons):
+    """for a path pinned to operand constants: the set of signedness families ('signed' / 'unsigned', 64-bit) under which the returned value
+    equals `lhs op rhs` for every witness value of the free operand(s); None when the value is not concretely evaluable"""
+    core, chain = _core(p.outcome[1])
+    free = [c for c in ('lhs', 'rhs') if c not in cons]
+    fams = set()
+    for fam, T in (('signed', ('i', 64, True)), ('unsigned', ('i', 64, False))):
+        ok = True
+        for w in (WITNESS if free else [0]):
+            bind = dict(cons)
+            for c in free:
+                bind[c] = wrap(w, I64)
+            want = _host(op, bind['lhs'], bind['rhs'], T)
+            if want is None:
+                continue
+            try:
+                got = _conc(core, bind)
+            except _NotConcrete:
+                return None
+            if wrap(got, I64) != wrap(want, I64):
+                ok = False; break
+        if ok:
+            fams.add(fam)
+    return fams
+
+
+def _path_signedness(F, p, kind):
+    """'signed' / 'unsigned' / None: what the path condition says about the operand type that selects the instruction for `kind`"""
+    who = ty_of(child('lhs')) if kind in ('ND_LT', 'ND_LE') else ty_of(NODE)
+    g = p.guard_of(('fld', who, 'is_unsigned'))
+    if g is None:
+        return None
+    return 'unsigned' if g else 'signed'
+
+
+def _check_special(F, p, kind, op, cons):
+    """a returning path that is taken only for the operand constants `cons`: (construct, message) when wrong, None when right, ('?', why) when not decided"""
+    what = ' and '.join('%s == %d' % (c, v) for c, v in sorted(cons.items()))
+    folded = set(c for f, c, v in _folded(p))
+    miss = [c for c in ('lhs', 'rhs') if c not in folded]
+    if miss:
+        return 'operands', ('on the path taken when %s the arm does not fold %s at all: a non-constant or erroneous operand there is accepted silently' % (what, ','.join(miss)))
+    fams = _special_family(p, op, cons)
+    if fams is None:
+        return '?', 'the value %s returned when %s is not an integer function of the folded operands that the analysis can evaluate' % (show(p.outcome[1]), what)
+    need = _path_signedness(F, p, kind) if kind in SIGNED_CHOICE else None
+    core, chain = _core(p.outcome[1])
+    if not fams or (need and need not in fams) or (kind in SIGNED_CHOICE and need is None and len(fams) < 2):
+        # witness for the message
+        wit = ''
+        for fam in ([need] if need else [f for f in ('signed', 'unsigned') if f not in fams]):
+            T = ('i', 64, fam != 'unsigned')
+            for w in WITNESS:
+                bind = dict(cons)
+                for c in ('lhs', 'rhs'):
+                    bind.setdefault(c, wrap(w, I64))
+                want = _host(op, bind['lhs'], bind['rhs'], T)
+                try:
+                    got = _conc(core, bind)
+                except _NotConcrete:
+                    break
+                if want is not None and wrap(got, I64) != wrap(want, I64):
+                    wit = ' (%s lhs = %d, rhs = %d: returns %d, `%s` yields %d)' % (fam, wrap(bind['lhs'], T), wrap(bind['rhs'], T), wrap(got, I64), op, wrap(want, I64)); break
+            if wit:
+                break
+        return 'operator', ('on the path taken when %s the arm returns %s, which is not `lhs %s rhs`%s%s' % (
+            what, show(p.outcome[1]), op, ' for %s operands' % (need or 'signed and unsigned'), wit))
+    if not _chain_is_wide(chain) and not _outer_ok(F, p, chain, False):
+        return 'result-narrowed', 'the result returned when %s is cut by a conversion that is not the reduction to the node\'s own type: %s' % (what, show(p.outcome[1]))
+    return None
+
+
 def _check_binop(F, ob, fname, kind, op, rets, floating):
     good = True; msg = ''; construct = 'operator'
+    general = 0
     for p in rets:
+        cons = _operand_constants(p) if not floating else {}
+        if cons:
+            r = _check_special(F, p, kind, op, cons)
+            if r is not None and r[0] == '?':
+                ob(fname, kind, 'special-case', None, r[1])
+            elif r is not None:
+                good = False; construct, msg = r
+            continue
+        general += 1
         core, chain = _core(p.outcome[1])
         if core[0] != 'bin':
             good = False; construct = 'operator'
@@ -480,6 +626,8 @@ def _check_binop(F, ob, fname, kind, op, rets, floating):
         if good and not _outer_ok(F, p, chain, floating):
             good = False; construct = 'result-narrowed'
             msg = 'the result is returned as %s: a conversion that is not the reduction to the node\'s own type cuts it' % show(p.outcome[1])
+    if good and not general:
+        good = False; construct = 'operator'; msg = 'every returning path of the arm is a special case for one operand value: no path applies `%s` to arbitrary operands' % op
     ob(fname, kind, construct, good, msg)
 
 
@@ -782,6 +930,14 @@ def r071(F, P, rep):
                 core = strip_casts(p.outcome[1])
                 fam_ops = ('<', '<=', '>', '>=') if cmp_kind else (('/', '%') if kind in ('ND_DIV', 'ND_MOD') else ('>>',))
                 hit = [x for x in walk(core) if isinstance(x, tuple) and x[0] == 'bin' and x[1] in fam_ops and x[4][0] == 'i']
+                cons = _operand_constants(p)
+                if not hit and cons:
+                    # a path taken for one operand value only (`if (rhs == -1) return -lhs;`): the family is the one under which the
+                    # returned value equals the operator on that value (R07.8 judges the value itself)
+                    fams = _special_family(p, op, cons)
+                    if fams is not None and len(fams) == 1:
+                        fam_f.add((list(fams)[0], 64))
+                    continue
                 if len(hit) != 1:
                     und = 'no single host `%s` in %s' % (op, show(p.outcome[1])); continue
                 T = hit[0][4]
